@@ -800,7 +800,20 @@ var methodPool = []string{"GET", "POST", "PUT", "DELETE", "PATCH", "HEAD", "OPTI
 // Connection / Cookie / Content-Type: headers a "clean-up" of the decoded request would be tempted to touch)
 var frameHdrNames = []string{"X-A", "x-b", "User-Agent", "Accept", "X-A", "x-a", "Connection", "content-type", "X_y", "accept-ENCODING", "Cookie", "Authorization"}
 
+// exoticFrames: valid HTTP that is outside the class of plain frames the Lean side reads itself (a folded header line,
+// a chunked body, a repeated Content-Length, Pragma): what they denote comes from the library table
+var exoticFrames = []string{
+	"POST /chunked HTTP/1.1\r\nHost: h.x\r\nTransfer-Encoding: chunked\r\n\r\n5\r\nhello\r\n0\r\n\r\n",
+	"GET /folded HTTP/1.1\r\nHost: example.com\r\nX-Long: first\r\n second\r\n\tthird\r\nAccept: a\r\n\r\n",
+	"PUT /twice HTTP/1.1\r\nHost: h\r\nContent-Length: 3\r\nContent-Length: 3\r\n\r\nabc",
+	"GET /pragma HTTP/1.0\r\nHost: h\r\nPragma: no-cache\r\n\r\n",
+	"GET /ver HTTP/1.2\r\nHost: h\r\n\r\n",
+}
+
 func randFrame(r *rand.Rand) []byte {
+	if r.Intn(16) == 0 {
+		return []byte(exoticFrames[r.Intn(len(exoticFrames))])
+	}
 	m := methodPool[r.Intn(len(methodPool)-1)]
 	u := uriPool[r.Intn(len(uriPool))]
 	eol := "\r\n"
@@ -816,7 +829,7 @@ func randFrame(r *rand.Rand) []byte {
 	post := func() string { return []string{"", "", "", " ", "\t", "  "}[r.Intn(6)] }
 	s := m + " " + u + " " + ver + eol
 	if r.Intn(5) > 0 {
-		s += []string{"Host", "Host", "host", "HOST"}[r.Intn(4)] + ":" + gap() + []string{"example.com", "h.x:8080", "10.0.0.1"}[r.Intn(3)] + post() + eol
+		s += []string{"Host", "Host", "host", "HOST"}[r.Intn(4)] + ":" + gap() + []string{"example.com", "h.x:8080", "10.0.0.1", "EXAMPLE.org", "Api.Example.COM:8443"}[r.Intn(5)] + post() + eol
 	}
 	nh := r.Intn(4)
 	for i := 0; i < nh; i++ {
@@ -1243,10 +1256,29 @@ func c07Streams(r *rand.Rand, tier string) []string {
 		}
 		items := []item{{kind: 'r', a: []byte("/big"), b: []byte("big tag"), c: body}, {kind: 'r', a: []byte("/b"), c: []byte("x\n")}}
 		// the first one is read one byte per Read call, the others through reads that do not divide the chunk size
-		out = append(out, caseLine("uripost", items, layout{fnl: i%2 == 0}, i%2 == 1, nil)+fmt.Sprintf(" rd=%d", []int{1, 4093, 65537, 3}[i%4]))
+		// k = one pass and one more delivery: the megabytes are printed twice, not three times
+		out = append(out, c07KTok.ReplaceAllString(caseLine("uripost", items, layout{fnl: i%2 == 0}, i%2 == 1, nil), " k=3 ")+fmt.Sprintf(" rd=%d", []int{1, 4093, 65537, 3}[i%4]))
+		if !thorough && i > 0 {
+			continue // quick: the frame variant once
+		}
 		frame := append([]byte("POST /big HTTP/1.1\r\nHost: h\r\nContent-Length: "+strconv.Itoa(n)+"\r\n\r\n"), body...)
 		fitems := []item{{kind: 'f', b: []byte("big tag"), c: frame}, {kind: 'f', c: []byte("GET / HTTP/1.0\r\n\r\n")}}
-		out = append(out, caseLine("raw", fitems, layout{fnl: true}, i%2 == 0, nil))
+		out = append(out, c07KTok.ReplaceAllString(caseLine("raw", fitems, layout{fnl: true}, i%2 == 0, nil), " k=3 "))
+	}
+	// 6b a uri line (target / header value) larger than 1 MiB: no line format has a length limit
+	nhuge := 1
+	if thorough {
+		nhuge = 4
+	}
+	for i := 0; i < nhuge; i++ {
+		n := bigSizes[i%len(bigSizes)] + 11*i
+		var items []item
+		if i%2 == 0 {
+			items = []item{{kind: 'r', a: []byte("/first"), b: []byte("t")}, {kind: 'r', a: append([]byte("/huge?q="), fill(r, n, alnum+"&=")...), b: []byte("huge tag")}, {kind: 'r', a: []byte("/last")}}
+		} else {
+			items = []item{{kind: 'h', a: []byte("X-Huge"), b: append(fill(r, n, alnum+" ;,="), 'x')}, {kind: 'r', a: []byte("/a"), b: []byte("t")}}
+		}
+		out = append(out, c07KTok.ReplaceAllString(caseLine("uri", items, layout{fnl: i%2 == 0}, i%2 == 1, nil), fmt.Sprintf(" k=%d ", countReqs(items)+1)))
 	}
 	// 10 mid-size bodies / frames: larger than the bufio.Reader buffer (4096: io.ReadFull through a bufio.Reader copies what is
 	// buffered and then reads the rest straight from the file) but far below the 1 MiB chunk; followed by further entries
@@ -1310,8 +1342,8 @@ func c07Streams(r *rand.Rand, tier string) []string {
 		}
 	}
 	// 7 long lines: request lines, header lines, size lines and blank/padded lines longer than the buffers the readers
-	// use (bufio.Reader 4096, bufio.Scanner 64 KiB token limit, multiples of both): a line is ONE line whatever its length
-	// (uripost/raw: ReadString has no limit; uri: lines of 65536 bytes and more are the Scanner's `token too long`)
+	// use (bufio.Reader 4096, the 64 KiB a default bufio.Scanner stops at, multiples of both): a line is ONE line whatever its
+	// length in every format (uripost/raw: ReadString; uri: since /repo 66b1841 a Scanner without the default token limit)
 	out = append(out, longStream(r, thorough)...)
 	// 9 many entries: files much larger than the readers' buffers (entries and header lines straddle every buffer refill);
 	// one pass and a bit, half of them preloaded (everything is decoded before the first request is built)
@@ -1943,7 +1975,9 @@ func main() {
 			"files of hundreds to thousands of entries; http/json entity lists in line/pretty/array layouts with leading/trailing white space, unknown fields and very long values; " +
 			"a malformed stream (fixed witnesses, Unicode white space at line edges, byte mutations) and the exhaustive enumeration of all short byte strings / short line sequences; " +
 			"limits on / next to pass boundaries and many passes, absolute-form targets, bodies of 4-64 KiB, a third of the files through short reads, one well-formed case in six drained by 2-4 concurrent consumers " +
-			"(multiset of deliveries), one in four with 2-16 deliveries in flight before they are read; every case runs in a child process (a fault that ends the process is the observation FATAL of that case); " +
+			"(multiset of deliveries), one in four with 2-16 deliveries in flight before they are read; one file in five whose last Read returns its data together with io.EOF, bodies / frames of 4-64 KiB as the last bytes of such a file; " +
+			"raw frames with header lines in several spellings, blanks around values, Connection / Cookie / mixed-case Host (what a frame says is read by the Lean side, the library table only covers exotic frames); uri / uripost / raw lines and bodies above 1 MiB; " +
+			"every case runs in a child process (a fault that ends the process is the observation FATAL of that case); " +
 			"the real NewProvider+Run+Acquire is drained; non-trivial = at least one request or a decoder error",
 	})
 }
